@@ -161,8 +161,8 @@ Section Doc.
           match tget t i with
           | Some TMixedContainer => (i, []) :: d_items f (S i) e
           | k0 =>
+              (* (no `let` for the plain reading: extraction is strict and would evaluate both readings) *)
               let n1 := item_next i in
-              let plain := d_value f i ++ d_items f n1 e in
               match (if Nat.ltb n1 e then tget t n1 else None) with
               | Some (TOperator op) =>
                   let n2 := S n1 in
@@ -170,8 +170,8 @@ Section Doc.
                     (i, [EK (triple_key dec k0)])
                       :: (n1, if op_is_equal op then [] else [EK (op_name op)])
                       :: d_value f n2 ++ d_items f (item_next n2) e
-                  else plain
-              | _ => plain
+                  else d_value f i ++ d_items f n1 e
+              | _ => d_value f i ++ d_items f n1 e
               end
           end
     end.
@@ -216,14 +216,13 @@ Section Doc.
           | Some TMixedContainer => c_items f (S i) e
           | k0 =>
               let n1 := item_next i in
-              let plain := negb (is_header k0) && c_value f i && c_items f n1 e in
               match (if Nat.ltb n1 e then tget t n1 else None) with
               | Some (TOperator op) =>
                   let n2 := S n1 in
                   if Nat.ltb n2 e then
                     negb (is_cont k0) && negb (is_header (tget t n2)) && c_value f n2 && c_items f (item_next n2) e
-                  else plain
-              | _ => plain
+                  else negb (is_header k0) && c_value f i && c_items f n1 e
+              | _ => negb (is_header k0) && c_value f i && c_items f n1 e
               end
           end
     end.
